@@ -38,7 +38,8 @@ carries its length), output is reduced to the sequence of `probe` executions (an
 `{{ id | probe }}`), `required` blocks, `block.super`, `break`/`continue`, the loop iteration limit (C06), the
 namespace contents.  WARN behaves like LAX for control flow.
 
-**Ghost state** (only copied into the emitted events; no test of the model reads it): `frames`, the number of
+**Ghost state** (only copied into the emitted events; no test of the model reads it — theorem
+`LiquidVerif.C09.ghost_erasure`): `frames`, the number of
 Python frames between the first `Node.render` of the render and the current `Node.render` call, accumulated from the
 per-construct costs below (measured with `sys._getframe` walks by the harness and compared on every case of the
 `depth` stream; the constants are those of the `sum(<genexpr>)` path of `BlockNode.render_to_output` — with
